@@ -52,8 +52,8 @@ def _pick_n(rng, fam, tier):
 # --------------------------------------------------------------------------
 # plan generation
 # --------------------------------------------------------------------------
-def _gen_curve(rng, cls, dims=(0, 0, 2)):
-    p = rng.randint(0, 3)
+def _gen_curve(rng, cls, dims=(0, 0, 2), maxp=3):
+    p = rng.randint(0, 3) if (maxp <= 3 or rng.random() < 0.85) else rng.randint(4, maxp)
     nint = rng.randint(0, 3)
     if cls == "float":
         vals = sorted(set(Fraction(rng.randint(-64, 128), 32) for _ in range(nint + 2)))
@@ -119,7 +119,7 @@ def gen_plan(prop, seed, tier):
             cls = rng.choice(["frac", "frac", "float"])
             what = rng.choice(["scalar", "scalar", "function", "lenght"])
             op = {"op": "integrate", "what": what, "th": th, "cls": cls}
-            op["curve"] = _gen_polyline(rng, cls) if what == "lenght" else _gen_curve(rng, cls, dims=(0,))
+            op["curve"] = _gen_polyline(rng, cls) if what == "lenght" else _gen_curve(rng, cls, dims=(0,), maxp=8)
             p = op["curve"]["p"]
             if rng.random() < 0.5:
                 m = rng.choice(sorted(METHODS))
